@@ -7,6 +7,7 @@ import (
 	"crypto/sha1"
 	"encoding/json"
 	"fmt"
+	rt "github.com/craterdog/go-collection-framework/v4/verifrt"
 	"io"
 	"os"
 	"os/exec"
@@ -78,6 +79,12 @@ func (r *Rec) Incomplete(why string) {
 
 // Violation records a failing case under its signature.
 func (r *Rec) Violation(sig, detail string, c any) {
+	if msg := rt.LastUnmodelled(); msg != "" {
+		// the execution this was concluded from met something the runtime model does not cover: no verdict
+		r.Notes["not_modelled"] = msg
+		r.Incomplete("a case was not decided, the runtime model does not cover it: " + msg)
+		return
+	}
 	r.SigCounts[sig]++
 	if r.SigCounts[sig] > 1 {
 		return
@@ -219,6 +226,7 @@ func RunUnit(u Unit, tier string, deadline time.Time, replay json.RawMessage) *R
 	}
 	rec := newRec(u.Name, tier, deadline)
 	rec.ReplayCase = replay
+	rt.ClearUnmodelled()
 	t0 := time.Now()
 	u.Run(rec)
 	rec.WallS = time.Since(t0).Seconds()
@@ -323,6 +331,14 @@ func Main(root, self, id, tier string, workers int, seed int64) int {
 						cmd.Wait()
 						tail := errBuf.String()
 						mu.Lock()
+						if strings.Contains(tail, "verif machinery error") {
+							// the harness itself gave up (something the runtime model does not cover): no verdict for this
+							// unit, and certainly not a violation of the property
+							machineryFailure = "unit " + units[idx].Name + ": " + firstFatalLine(tail)
+							mu.Unlock()
+							crashed = true
+							break
+						}
 						raw, _ := json.Marshal(map[string]any{"unit": units[idx].Name})
 						crashes = append(crashes, Violation{
 							Sig:    "worker process died (" + firstFatalLine(tail) + ")",
